@@ -4,19 +4,31 @@
 // are tiny complete checks of helper contracts that the Verus unit assumes.
 use super::*;
 
-// C14 (complete): ClosingOutpoints::is_all_spent for a closing tx with one HTLC output and no second-level outputs
+// C14 / C15 (bounded: two HTLC outputs, two second-level outputs, every flag symbolic): ClosingOutpoints::is_all_spent is
+// the conjunction of all spent flags.  Runs the compiled code, so it also decides rewrites of the function that the
+// Verus template cannot follow (new loops).
 #[kani::proof]
-#[kani::unwind(3)]
+#[kani::unwind(4)]
 fn c14_is_all_spent_small() {
     let our: Option<(u32, bool)> = if kani::any() { Some((0, kani::any())) } else { None };
-    let spent: bool = kani::any();
+    let h1: bool = kani::any();
+    let h2: bool = kani::any();
+    let t1: bool = kani::any();
+    let t2: bool = kani::any();
+    let n_second: u8 = kani::any();
+    kani::assume(n_second <= 2);
+    let null = bitcoin::OutPoint::null();
+    let mut second = Vec::new();
+    if n_second >= 1 { second.push(SecondLevelHTLCOutput { outpoint: null, spent: t1 }); }
+    if n_second >= 2 { second.push(SecondLevelHTLCOutput { outpoint: null, spent: t2 }); }
     let c = ClosingOutpoints {
         txid: bitcoin::hashes::Hash::all_zeros(),
         our_output: our,
-        htlc_outputs: vec![1],
-        htlc_spents: vec![spent],
-        second_level_htlc_outputs: Vec::new(),
+        htlc_outputs: vec![1, 2],
+        htlc_spents: vec![h1, h2],
+        second_level_htlc_outputs: second,
     };
-    let expect = (match our { Some((_, b)) => b, None => true }) && spent;
+    let expect = (match our { Some((_, b)) => b, None => true }) && h1 && h2
+        && (n_second < 1 || t1) && (n_second < 2 || t2);
     assert!(c.is_all_spent() == expect);
 }
